@@ -32,8 +32,8 @@ func outOfStandardDomain(sc *Scenario, rec *Recorder) string {
 		if e.K != EvStep {
 			continue
 		}
-		if e.Op >= RSVJNAL && e.Op <= VRJNAL {
-			return "journal-opcode-byte"
+		if isNonStandardOpByte(e.Op) {
+			return "non-standard-opcode-byte"
 		}
 		var pos int
 		switch e.Op {
